@@ -183,6 +183,45 @@ def measure_cases(ctx, quick, n_cases=None, seeds=None):
                                         dict(desc, env=name, what='2site'))
                                     raise StopIteration
                             ctx.count('measure_2site:' + name)
+                            # an explicit (sparse) list of pairs: the same numbers for exactly the listed pairs
+                            if len(res2) >= 2:
+                                sub = rng.sample(sorted(res2), rng.randint(1, 2))
+                                res3 = env.measure_2site(A, B, **dict(kw, pairs=sub))
+                                ctx.count('measure_2site(pairs=list):' + name)
+                                for (s0, s1) in sub:
+                                    ref = dense_ev(jw, v, [A, B], [s2i[s0], s2i[s1]])
+                                    if (s0, s1) not in res3 or abs(res3[s0, s1] - ref) > tol:
+                                        ctx.violation('%s.measure_2site(dirn=%s, pairs=%r) at %r gives %r, the dense state has %r (%s %s %r)' % (
+                                            name, dirn, [(tuple(a_), tuple(b_)) for a_, b_ in sub], (tuple(s0), tuple(s1)), res3.get((s0, s1)), complex(ref), fam, sym, dims),
+                                            dict(desc, env=name, what='2site-pairs', pairs=[[list(a_), list(b_)] for a_, b_ in sub]), family='measure-2site-sparse-pairs')
+                                        raise StopIteration
+                # operators given per site (dictionaries; lists of operators at a site): the same values, site by site
+                cf = {s: rng.choice([1.0, -2.0, 0.5, 3.0]) for s in sites}
+                cg = {s: rng.choice([1.0, -1.5, 2.0]) for s in sites}
+                O1 = singles[0]
+                res = env.measure_1site({s: [cf[s] * O1, I] for s in sites})
+                ctx.count('measure_1site(dict):' + name)
+                for key, val in res.items():
+                    s, nz = tuple(key[:2]), tuple(key[2:])
+                    ref = cf[s] * dense_ev(jw, v, [O1], [s2i[s]]) if nz == (0,) else 1.0
+                    if abs(val - ref) > tol:
+                        ctx.violation('%s.measure_1site({site: [c_site O, I]}) entry %r gives %r, the dense state has %r (%s %s %r)' % (name, key, complex(val), complex(ref), fam, sym, dims),
+                                      dict(desc, env=name, what='1site-dict'))
+                        raise StopIteration
+                if name in ('ctm', 'bp'):
+                    for (A, B) in pairs:
+                        lists = rng.random() < 0.5
+                        Od = {s: cf[s] * A for s in sites}
+                        Pd = {s: ([cg[s] * B, B] if lists else cg[s] * B) for s in sites}
+                        res = env.measure_nn(Od, Pd)
+                        ctx.count('measure_nn(dict%s):%s' % ('+lists' if lists else '', name))
+                        for (k0, k1), val in res.items():
+                            s0, s1, nz1 = tuple(k0[:2]), tuple(k1[:2]), tuple(k1[2:])
+                            ref = cf[s0] * (1.0 if nz1 == (1,) else cg[s1]) * dense_ev(jw, v, [A, B], [s2i[s0], s2i[s1]])
+                            if abs(val - ref) > tol:
+                                ctx.violation('%s.measure_nn({site: c_site A}, {site: %s}) entry %r gives %r, the dense state has %r (%s %s %r)' % (
+                                    name, '[d_site B, B]' if lists else 'd_site B', (k0, k1), complex(val), complex(ref), fam, sym, dims), dict(desc, env=name, what='nn-dict', lists=lists))
+                                raise StopIteration
                 if hasattr(env, 'measure_nsite') and N >= 3:
                     for tr in triples:
                         for _ in range(3):
